@@ -227,6 +227,7 @@ def r2(ctx, chk):
             s = ast.unparse(subj)
             ok = _guarded_naive(f, node, s) or _naive_expr(subj, f, ctx)
             why = ""
+            unproven = []
             if not ok and isinstance(subj, ast.Name) and subj.id in f.params():
                 # every caller passes a naive value
                 idx = f.params().index(subj.id)
@@ -240,13 +241,15 @@ def r2(ctx, chk):
                         if kw.arg == subj.id:
                             arg = kw.value
                     res.append(arg is not None and (_naive_expr(arg, s2.fn, ctx) or _guarded_naive(s2.fn, s2.node, ast.unparse(arg))))
+                    if not res[-1]:
+                        unproven.append(ck)
                 ok = bool(res) and all(res)
                 why = "callers: %d, naive at all of them: %s" % (len(res), ok)
             chk.ob(rule, "%s: `%s` attaches a zone to a provably naive value" % (f.qual, ast.unparse(node)[:60]), ok,
                    "the value may already be aware here: attaching a zone to it changes the instant (an aware value "
                    "must change zone through astimezone). %s" % why,
                    key={"function": fk, "construct": " ".join(ast.unparse(node).split())[:100]}, file=f.file,
-                   function=f.qual, line=node.lineno)
+                   function=f.qual, line=node.lineno, path=sorted(set(unproven)) or None)
     chk.floor(rule, n, 8, "zone-attachment sites (replace(tzinfo=Z) / Z.localize(d))")
     # conversions of aware values use astimezone
     for key in ("dateparser.utils:apply_tzdatabase_timezone", "dateparser.utils:apply_dateparser_timezone"):
